@@ -3876,7 +3876,15 @@ class StaleFileRemovalCommand : public Command {
     return false;
   }
 
-  virtual void start(BuildSystem&, TaskInterface) override {}
+  virtual void start(BuildSystem&, TaskInterface) override {
+    // Reset the per-build state: the command object outlives a build when the
+    // build system is reused, and the list of files to delete depends on the
+    // prior value provided for *this* build.
+    hasPriorResult = false;
+    priorValue = BuildValue::makeInvalid();
+    computedFilesToDelete = false;
+    filesToDelete.clear();
+  }
 
   virtual void providePriorValue(BuildSystem&, TaskInterface,
                                  const BuildValue& value) override {
